@@ -105,6 +105,11 @@ def observer_hosts():
         [sb([bf('d/y', []), q])],
         [sb([bf('d/e/z', [], mode='ra'), q])],
         [bf('d/x', [sb([q])], wfirst=True)],
+        # a separately cached operation observes what another cached operation produced
+        [bf('a', [bf('d/y', [])]), sb([q])],
+        [sb([bf('d/y', [])]), sb([q], args=[2])],
+        [bf('a', [bf('d/e/z', [])]), bf('d/x', [q])],
+        [sb([bf('d/e/z', [], mode='rb')]), sb([q], args=[2])],
     ]
 
 
